@@ -101,7 +101,7 @@ func runCase(t *testing.T, p *pool, c *GCase) {
 	outctx := ocr3types.OutcomeContext{SeqNr: c.Seq, PreviousOutcome: prevBytes(c)}
 	var first []byte
 	var firstErr error
-	c.Det, c.Evals = true, 0
+	c.Det, c.Evals, c.AltOuts = true, 0, nil
 	for rep := 0; rep < 3; rep++ {
 		for _, nd := range nodes {
 			// fresh copies of the inputs for every evaluation (Outcome may alias what it decodes)
@@ -114,6 +114,15 @@ func runCase(t *testing.T, p *pool, c *GCase) {
 				first, firstErr = out, err
 			} else if (err != nil) != (firstErr != nil) || !bytes.Equal(out, first) {
 				c.Det = false
+				if err == nil {
+					seen := false
+					for _, a := range c.AltOuts {
+						seen = seen || a == string(out)
+					}
+					if !seen {
+						c.AltOuts = append(c.AltOuts, string(out))
+					}
+				}
 			}
 			c.Evals++
 		}
@@ -284,8 +293,15 @@ func runAll(t *testing.T, prop, base string, results [][2]string) {
 	}
 	synctest.Test(t, func(t *testing.T) {
 		p := &pool{t: t, nodes: map[string][]*Node{}}
-		for i := range cases {
+		n0 := len(cases)
+		for i := 0; i < n0; i++ {
 			runCase(t, p, &cases[i])
+			// an evaluation that answered differently (Go's map order) is judged as a case of its own
+			for _, alt := range cases[i].AltOuts {
+				c := cases[i]
+				c.Family, c.OutJSON, c.AltOuts, c.OutErr = c.Family+"/other-evaluation", alt, nil, false
+				cases = append(cases, c)
+			}
 		}
 		time.Sleep(3 * time.Second)
 		synctest.Wait()
